@@ -199,11 +199,29 @@ def run_case(inp):
             V("nowedge", "no-wedge mask is not all ones")
     elif kind == "dual":
         a2, b2 = inp["range2"]
+        # masks handed out before, between and after the dual-axis request (same range / orientation / shape)
+        y_first = np.asarray(single_axis((a, b), "y").create_mask(rot, shape))
+        y_copy = y_first.astype(bool).copy()
         d = np.asarray(dual_axis((a, b), (a2, b2)).create_mask(rot, shape)).astype(bool)
-        u = np.asarray(single_axis((a, b), "y").create_mask(rot, shape)).astype(bool) | \
-            np.asarray(single_axis((a2, b2), "x").create_mask(rot, shape)).astype(bool)
+        y_after = np.asarray(single_axis((a, b), "y").create_mask(rot, shape)).astype(bool)
+        x_after = np.asarray(single_axis((a2, b2), "x").create_mask(rot, shape)).astype(bool)
+        d2 = np.asarray(dual_axis((a, b), (a2, b2)).create_mask(rot, shape)).astype(bool)
+        u = y_copy | x_after
         if not np.array_equal(d, u):
             V("union", f"dual-axis mask differs from the union at {int((d != u).sum())} bins")
+        if not np.array_equal(y_first.astype(bool), y_copy):
+            V("history", "a single-axis mask handed out earlier changed when a dual-axis mask was requested")
+        if not np.array_equal(y_after, y_copy):
+            V("history", f"single-axis mask requested after a dual-axis mask differs from the one requested before "
+                         f"at {int((y_after != y_copy).sum())} bins")
+        if not np.array_equal(d2, d):
+            V("history", "a second dual-axis request gives a different mask")
+        for name, m, ax, rg in (("y", y_after, "y", (a, b)), ("x", x_after, "x", (a2, b2))):
+            spec, near = _spec_mask(rot, nrm(rg[0], ax), nrm(rg[1], ax), shape)
+            bad = (m != spec) & ~near
+            if bad.any():
+                V("geometry", f"single-axis {name} mask requested after a dual-axis mask: {int(bad.sum())} of {m.size} bins "
+                              f"differ from the fftfreq-based wedge")
     elif kind == "entry":
         tmpl = np.zeros(shape, dtype=np.float32)
         tmpl[tuple(s // 2 for s in shape)] = 1
